@@ -12,9 +12,17 @@
 //!                             index 4k+j); mtbdd: comma separated values
 //!   `O <v0> <v1> ...`         `oxidd_reorder::set_var_order` (not generated
 //!                             when VERIF_C15_REORDER=0)
-//!   `X ver=<2|3> mode=<a|b> strict=<0|1> dd=<name> rn=<0|1> roots=<i[:name],..>`
+//!   `X ver=<2|3> mode=<a|b> strict=<0|1> dd=<name> rn=<0|1> roots=<i[:name],..> [chain=<c,..>]`
 //!                             export, load, import (same manager, fresh
-//!                             manager, embedding), dump
+//!                             manager, embedding), dump; `.set` reports
+//!                             `ExportSettings::binary_supported` and the getters of
+//!                             the settings used and of the settings built by the
+//!                             builder calls `chain` (a = ascii(), b = binary(), v2 / v3 =
+//!                             version(..), s0 / s1 = strict(..), n<name> = diagram_name(..))
+//!                             on `ExportSettings::default()`; tdd: tables are comma
+//!                             separated values 0 / 1 / u, `.orig3` = tables over all
+//!                             three-valued assignments (digit j of the index in base 3 =
+//!                             variable j: 0 false, 1 unknown, 2 true)
 //!   `M <t|r|i|d> <pos> [byte]`  mutation of the last exported file (truncate,
 //!                             replace, insert, delete), load + import
 //!   `M raw <hex>`             import of the given bytes
@@ -219,6 +227,8 @@ struct XOpts {
     ddname: Option<String>,
     named_roots: bool,
     roots: Vec<(usize, String)>,
+    /// builder calls applied to `ExportSettings::default()` for the getter probe
+    chain: Vec<String>,
 }
 
 #[derive(Clone, Debug, Default)]
@@ -322,7 +332,7 @@ fn prescan_nvars(data: &[u8]) -> Option<u64> {
 }
 
 trait Kind {
-    type F: Clone + Eq;
+    type F: Clone + Eq + 'static;
     type MR: Clone;
     const NAME: &'static str;
     const BOOLEAN: bool;
@@ -336,7 +346,8 @@ trait Kind {
     fn reorder(m: &Self::MR, order: &[u32]);
     fn build(m: &Self::MR, nv: u32, table: &[String]) -> Option<Self::F>;
     fn eval(f: &Self::F, args: &[(u32, bool)]) -> String;
-    fn export(m: &Self::MR, o: &XOpts, funcs: &[Self::F]) -> (Vec<u8>, Result<(), String>);
+    /// file bytes, result, `.set` probe text
+    fn export(m: &Self::MR, o: &XOpts, funcs: &[Self::F]) -> (Vec<u8>, Result<(), String>, String);
     fn import(m: &Self::MR, data: &[u8], sv: &SvMode, grow: bool) -> Imported<Self::F>;
     fn dump(m: &Self::MR, roots: &[&Self::F]) -> String;
 }
@@ -415,7 +426,11 @@ type TdF = oxidd::tdd::TDDFunction;
 fn build_tdd(m: &<TdF as Function>::ManagerRef, nv: u32, table: &[String]) -> Option<TdF> {
     fn rec<'id>(manager: &<TdF as Function>::Manager<'id>, table: &[String], var: u32) -> Option<TdF> {
         if table.iter().all(|x| x == &table[0]) {
-            return Some(if table[0] == "1" { TdF::t(manager) } else { TdF::f(manager) });
+            return Some(match table[0].as_str() {
+                "1" => TdF::t(manager),
+                "u" => TdF::u(manager),
+                _ => TdF::f(manager),
+            });
         }
         let half = table.len() / 2;
         let lo = rec(manager, &table[..half], var - 1)?;
@@ -425,6 +440,28 @@ fn build_tdd(m: &<TdF as Function>::ManagerRef, nv: u32, table: &[String]) -> Op
     }
     assert_eq!(table.len(), 1usize << nv);
     m.with_manager_shared(|manager| rec(manager, table, nv))
+}
+/// table of a TDD over all three-valued assignments of the variables 0..nv (digit j of the
+/// index in base 3 = variable j: 0 false, 1 unknown, 2 true); one character per entry
+fn tdd_table3(f: &TdF, nv: u32) -> String {
+    let n = 3usize.pow(nv);
+    let mut s = String::with_capacity(n);
+    for a in 0..n {
+        let mut x = a;
+        let args: Vec<(u32, Option<bool>)> = (0..nv)
+            .map(|v| {
+                let d = x % 3;
+                x /= 3;
+                (v, match d { 0 => Some(false), 1 => None, _ => Some(true) })
+            })
+            .collect();
+        s.push(match TVLFunction::eval(f, args) {
+            Some(true) => '1',
+            Some(false) => '0',
+            None => 'u',
+        });
+    }
+    s
 }
 fn eval_tdd(f: &TdF, args: &[(u32, bool)]) -> String {
     match TVLFunction::eval(f, args.iter().map(|&(v, b)| (v, Some(b)))) {
@@ -532,7 +569,7 @@ macro_rules! impl_kind {
             fn eval(f: &Self::F, args: &[(u32, bool)]) -> String {
                 $eval(f, args)
             }
-            fn export(m: &Self::MR, o: &XOpts, funcs: &[Self::F]) -> (Vec<u8>, Result<(), String>) {
+            fn export(m: &Self::MR, o: &XOpts, funcs: &[Self::F]) -> (Vec<u8>, Result<(), String>, String) {
                 let mut buf: Vec<u8> = Vec::new();
                 let dd = o.ddname.clone().unwrap_or_default();
                 let mut st = ExportSettings::default()
@@ -540,6 +577,36 @@ macro_rules! impl_kind {
                     .strict(o.strict)
                     .diagram_name(&dd);
                 st = if o.ascii { st.ascii() } else { st.binary() };
+                // getters of the settings in use and of the chain of builder calls
+                fn getters(st: &ExportSettings) -> String {
+                    format!(
+                        "ver={} ascii={} strict={} ddn={}",
+                        match st.get_version() {
+                            DDDMPVersion::V3_0 => 3,
+                            DDDMPVersion::V2_0 => 2,
+                            _ => 0,
+                        },
+                        st.is_ascii() as u8,
+                        st.is_strict() as u8,
+                        name_tok(Some(st.get_diagram_name()))
+                    )
+                }
+                let chain_names: Vec<String> =
+                    o.chain.iter().map(|c| if let Some(n) = c.strip_prefix('n') { tok_name(n).unwrap_or_default() } else { String::new() }).collect();
+                let mut cs = ExportSettings::default();
+                for (c, n) in o.chain.iter().zip(&chain_names) {
+                    cs = match c.as_str() {
+                        "a" => cs.ascii(),
+                        "b" => cs.binary(),
+                        "v2" => cs.version(DDDMPVersion::V2_0),
+                        "v3" => cs.version(DDDMPVersion::V3_0),
+                        "s0" => cs.strict(false),
+                        "s1" => cs.strict(true),
+                        _ => cs.diagram_name(n),
+                    };
+                }
+                let bs = m.with_manager_shared(|manager| ExportSettings::binary_supported(manager));
+                let probe = format!("bs={} {} | {}", bs as u8, getters(&st), getters(&cs));
                 let res = m.with_manager_shared(|manager| {
                     if o.named_roots {
                         st.export_with_names(&mut buf, manager, o.roots.iter().map(|(i, n)| (&funcs[*i], n.as_str())))
@@ -547,7 +614,7 @@ macro_rules! impl_kind {
                         st.export(&mut buf, manager, o.roots.iter().map(|(i, _)| &funcs[*i]))
                     }
                 });
-                (buf, res.map_err(|e| io_err(&e)))
+                (buf, res.map_err(|e| io_err(&e)), probe)
             }
             fn import(m: &Self::MR, data: &[u8], sv: &SvMode, grow: bool) -> Imported<Self::F> {
                 import_body!($imp, $F, $complement, m, data, sv, grow)
@@ -582,7 +649,7 @@ impl_kind!(KZbdd, "zbdd", true, yes, oxidd::zbdd::ZBDDFunction, oxidd::zbdd::ZBD
     |cap| oxidd::zbdd::new_manager(cap, 1 << 10, 1), build_zbdd, eval_zbdd, reject_complement!());
 impl_kind!(KMtbdd, "mtbdd", false, yes, MtF, MtMR,
     |cap| oxidd::mtbdd::new_manager(cap, 1 << 12, 1 << 10, 1), build_mtbdd, eval_mtbdd, reject_complement!());
-impl_kind!(KTdd, "tdd", true, no, TdF, oxidd::tdd::TDDManagerRef,
+impl_kind!(KTdd, "tdd", false, no, TdF, oxidd::tdd::TDDManagerRef,
     |cap| oxidd::tdd::new_manager(cap, 1 << 10, 1), build_tdd, eval_tdd, reject_complement!());
 
 
@@ -612,7 +679,7 @@ fn table_of<K: Kind>(f: &K::F, vars: &[u32], nv_mgr: u32) -> String {
 }
 
 fn parse_xopts(tok: &[&str]) -> XOpts {
-    let mut o = XOpts { ver3: false, ascii: false, strict: false, ddname: None, named_roots: false, roots: Vec::new() };
+    let mut o = XOpts { ver3: false, ascii: false, strict: false, ddname: None, named_roots: false, roots: Vec::new(), chain: Vec::new() };
     for t in &tok[1..] {
         let (k, v) = t.split_once('=').expect("key=value");
         match k {
@@ -630,6 +697,11 @@ fn parse_xopts(tok: &[&str]) -> XOpts {
                         };
                         o.roots.push((i.parse().unwrap(), n));
                     }
+                }
+            }
+            "chain" => {
+                if v != "-" {
+                    o.chain = v.split(',').map(|c| c.to_string()).collect();
                 }
             }
             _ => panic!("unknown export option {k}"),
@@ -748,10 +820,11 @@ fn run_case<K: Kind>(case: &Case, out: &mut dyn FnMut(String)) {
                 let o = parse_xopts(&tok);
                 match guarded(|| K::export(&m, &o, &funcs)) {
                     Err(p) => format!("PANIC {p}"),
-                    Ok((buf, res)) => {
+                    Ok((buf, res, probe)) => {
                         base = buf;
                         let mut aux: Vec<String> = Vec::new();
                         aux.push(format!(".file {}", hex(&base)));
+                        aux.push(format!(".set {probe}"));
                         aux.push(format!(".src v2l={} nvars={} nterm={}", join(K::v2l(&m)), K::num_vars(&m), K::num_terminals(&m)));
                         let roots: Vec<&K::F> = o.roots.iter().map(|(i, _)| &funcs[*i]).collect();
                         aux.push(format!(".dump {}", K::dump(&m, &roots)));
@@ -759,6 +832,16 @@ fn run_case<K: Kind>(case: &Case, out: &mut dyn FnMut(String)) {
                             ".orig tt={}",
                             if roots.is_empty() { "-".to_string() } else { roots.iter().map(|f| table_of::<K>(f, &vars, nv)).collect::<Vec<_>>().join("|") }
                         ));
+                        if K::NAME == "tdd" && nv <= 6 {
+                            let t3: Vec<String> = roots
+                                .iter()
+                                .map(|f| match (*f as &dyn std::any::Any).downcast_ref::<TdF>() {
+                                    Some(t) => tdd_table3(t, nv),
+                                    None => "?".to_string(),
+                                })
+                                .collect();
+                            aux.push(format!(".orig3 tt={}", if t3.is_empty() { "-".to_string() } else { t3.join("|") }));
+                        }
                         // same manager
                         match guarded(|| K::import(&m, &base, &SvMode::Order, false)) {
                             Err(p) => aux.push(format!(".same PANIC {p}")),
@@ -873,6 +956,7 @@ const NAME_POOL: &[&str] = &[
     "_a", "__a", "a\u{a0}b", "T", "F",
 ];
 const DD_NAMES: &[&str] = &["dd", "my diagram", "a\nb", " lead", "trail ", "\t", " ", "x\ty\n", "ü⊤", ".nodes", "d"];
+const TDD_VALUES: &[&str] = &["0", "1", "u"];
 const MT_VALUES: &[&str] = &["0", "1", "2", "-1", "-3", "5", "7", "100", "-9223372036854775808", "9223372036854775807", "+Inf", "-Inf", "NaN"];
 
 impl Gen {
@@ -953,6 +1037,52 @@ impl Gen {
         t.join(",")
     }
 
+    /// three-valued table (values 0 / 1 / u) of a function of the support variables
+    fn tdd_table(&mut self, nv: u32, support: &[u32]) -> String {
+        let k = support.len();
+        // Boolean-valued, mostly Boolean, or uniformly three-valued
+        let style = self.rng.below(3);
+        let sub: Vec<&str> = (0..(1usize << k))
+            .map(|_| match style {
+                0 => *self.rng.pick(&TDD_VALUES[..2]),
+                1 => if self.rng.chance(1, 6) { "u" } else { *self.rng.pick(&TDD_VALUES[..2]) },
+                _ => *self.rng.pick(TDD_VALUES),
+            })
+            .collect();
+        let t: Vec<&str> = (0..(1usize << nv))
+            .map(|a| {
+                let mut idx = 0;
+                for (j, &v) in support.iter().enumerate() {
+                    if (a >> v) & 1 != 0 {
+                        idx |= 1 << j;
+                    }
+                }
+                sub[idx]
+            })
+            .collect();
+        t.join(",")
+    }
+
+    /// random builder calls for the getter probe
+    fn chain(&mut self) -> String {
+        let n = self.rng.below(6);
+        if n == 0 {
+            return "-".to_string();
+        }
+        (0..n)
+            .map(|_| match self.rng.below(7) {
+                0 => "a".to_string(),
+                1 => "b".to_string(),
+                2 => "v2".to_string(),
+                3 => "v3".to_string(),
+                4 => "s0".to_string(),
+                5 => "s1".to_string(),
+                _ => format!("n{}", name_tok(Some(*self.rng.pick(DD_NAMES)))),
+            })
+            .collect::<Vec<_>>()
+            .join(",")
+    }
+
     fn x_op(&mut self, nfuncs: usize, ver3: bool, ascii: bool, rn: bool, strict: bool, nasty: bool) -> String {
         let nroots = if self.rng.chance(1, 12) { 0 } else { self.rng.range(1, (nfuncs as u64).min(6)) as usize };
         let mut roots = Vec::new();
@@ -976,14 +1106,16 @@ impl Gen {
         } else {
             name_tok(Some("dd"))
         };
+        let chain = self.chain();
         format!(
-            "X ver={} mode={} strict={} dd={} rn={} roots={}",
+            "X ver={} mode={} strict={} dd={} rn={} roots={} chain={}",
             if ver3 { 3 } else { 2 },
             if ascii { "a" } else { "b" },
             strict as u8,
             dd,
             rn as u8,
-            if roots.is_empty() { "-".to_string() } else { roots.join(",") }
+            if roots.is_empty() { "-".to_string() } else { roots.join(",") },
+            chain
         )
     }
 
@@ -1025,10 +1157,15 @@ impl Gen {
                 ops.push(v);
             }
             for &f in chunk {
-                if dd == "mtbdd" {
+                if dd == "mtbdd" || dd == "tdd" {
                     // the Boolean function selects between two values
-                    let lo = *self.rng.pick(MT_VALUES);
-                    let hi = *self.rng.pick(MT_VALUES);
+                    let pool = if dd == "tdd" { TDD_VALUES } else { MT_VALUES };
+                    let (lo, hi) = if dd == "tdd" && self.rng.chance(1, 2) {
+                        // the function itself, under the identity numbering
+                        ("0", "1")
+                    } else {
+                        (*self.rng.pick(pool), *self.rng.pick(pool))
+                    };
                     let t: Vec<&str> = (0..8u32).map(|a| if (f >> a) & 1 != 0 { hi } else { lo }).collect();
                     ops.push(format!("F {}", t.join(",")));
                 } else {
@@ -1072,6 +1209,8 @@ impl Gen {
                 support.sort_unstable();
                 if dd == "mtbdd" {
                     ops.push(format!("F {}", self.mt_table(nv, &support)));
+                } else if dd == "tdd" {
+                    ops.push(format!("F {}", self.tdd_table(nv, &support)));
                 } else {
                     let sparse = self.rng.chance(1, 3);
                     let all: Vec<u32> = (0..nv).collect();
@@ -1157,6 +1296,8 @@ impl Gen {
             let all: Vec<u32> = (0..nv).collect();
             if dd == "mtbdd" {
                 base_ops.push(format!("F {}", self.mt_table(nv, &all)));
+            } else if dd == "tdd" {
+                base_ops.push(format!("F {}", self.tdd_table(nv, &all)));
             } else {
                 base_ops.push(format!("F {}", self.bool_table(nv, &all, false)));
             }
@@ -1428,6 +1569,8 @@ impl Gen {
         for _ in 0..nf {
             if dd == "mtbdd" {
                 base_ops.push(format!("F {}", self.mt_table(nv, &support)));
+            } else if dd == "tdd" {
+                base_ops.push(format!("F {}", self.tdd_table(nv, &support)));
             } else {
                 base_ops.push(format!("F {}", self.bool_table(nv, &support, false)));
             }
@@ -1460,6 +1603,81 @@ impl Gen {
             let mut ops = base_ops.clone();
             ops.extend(chunk.iter().cloned());
             self.emit("mal", dd, nv, "", &ops);
+        }
+    }
+
+    /// TDD files read by the importers of the binary kinds (the only importers there are):
+    /// the file as written (three children per node, terminal `U`), the file with the unknown
+    /// child of every node line dropped and / or `U` replaced by `F` (then a well-formed file of
+    /// the binary kinds), and random mutations of these
+    fn cross_cases(&mut self, nbase: usize, nmut: usize) {
+        /// `terms`: the descriptions that replace F / U / T on terminal lines
+        fn edit(file: &[u8], drop_middle: bool, terms: Option<[&str; 3]>) -> Vec<u8> {
+            let Some(npos) = file.windows(7).position(|w| w == b".nodes\n") else {
+                return file.to_vec();
+            };
+            let mut out = file[..npos + 7].to_vec();
+            for line in file[npos + 7..].split(|&b| b == b'\n') {
+                if line.is_empty() {
+                    continue;
+                }
+                let toks: Vec<&[u8]> = line.split(|&b| b == b' ').collect();
+                let mut toks: Vec<Vec<u8>> = toks.into_iter().map(|t| t.to_vec()).collect();
+                if drop_middle && toks.len() == 5 {
+                    toks.remove(3);
+                }
+                if let (Some(t), 4) = (terms, toks.len()) {
+                    if toks[2] == b"0" && toks[3] == b"0" {
+                        toks[1] = match toks[1].as_slice() {
+                            b"F" => t[0],
+                            b"U" => t[1],
+                            _ => t[2],
+                        }
+                        .as_bytes()
+                        .to_vec();
+                    }
+                }
+                out.extend_from_slice(&toks.join(&b' '));
+                out.push(b'\n');
+            }
+            out
+        }
+        for _ in 0..nbase {
+            let nv = self.rng.range(1, 4) as u32;
+            let all: Vec<u32> = (0..nv).collect();
+            let nf = self.rng.range(1, 2) as usize;
+            let mut src = Vec::new();
+            if self.rng.chance(1, 2) {
+                if let Some(v) = self.var_names(nv, 1) {
+                    src.push(v);
+                }
+            }
+            for _ in 0..nf {
+                src.push(format!("F {}", self.tdd_table(nv, &all)));
+            }
+            let (rn, ver3) = (self.rng.chance(1, 2), self.rng.chance(1, 2));
+            src.push(self.x_op(nf, ver3, true, rn, false, false));
+            let file = Self::base_file("tdd", nv, &src);
+            if file.is_empty() {
+                continue;
+            }
+            for dd in ["bdd", "bcdd", "zbdd", "mtbdd"] {
+                // terminals of the target kind for F / U / T
+                let t = match dd {
+                    "zbdd" => ["E", "E", "B"],
+                    "mtbdd" => ["0", "7", "1"],
+                    _ => ["F", "F", "T"],
+                };
+                let variants = [file.clone(), edit(&file, true, None), edit(&file, false, Some(t)), edit(&file, true, Some(t))];
+                let mut mops: Vec<String> = variants.iter().map(|v| format!("M raw {}", hex(v))).collect();
+                for i in 0..nmut {
+                    let v = &variants[i % 4];
+                    let m = self.mutation(v);
+                    let tok: Vec<&str> = m.split_whitespace().collect();
+                    mops.push(format!("M raw {}", hex(&apply_mutation(v, &tok))));
+                }
+                self.emit("mal", dd, nv, "", &mops);
+            }
         }
     }
 
@@ -1496,6 +1714,11 @@ fn gen(tier: &str, seed: u64) {
             g.mal_cases(dd, true, nmut / 2);
         }
     }
+    // TDD: there is no importer (header loader + the model's readers only) ...
+    for _ in 0..(nbase / 2).max(1) {
+        g.mal_cases("tdd", true, nmut / 2);
+    }
+    // ... so TDD files go through the importers of the other kinds
     // structured header mutations
     let (hbase, hmut) = if thorough { (6, 1500) } else { (2, 500) };
     for _ in 0..hbase {
@@ -1504,6 +1727,8 @@ fn gen(tier: &str, seed: u64) {
             g.hdr_cases(dd, true, hmut / 2);
         }
     }
+    g.cross_cases(if thorough { 12 } else { 3 }, if thorough { 400 } else { 100 });
+    g.hdr_cases("tdd", true, hmut / 2);
     g.oom_cases(if thorough { 40 } else { 6 });
 }
 
